@@ -61,6 +61,10 @@ type trUnit struct {
 	sendOwner string
 	bufVars  []string           // variables that are byte buffers: `v.WriteByte(b)` / `v.WriteString(s)` append to them
 	readers  []string           // variables that are byte readers: `b, err := v.ReadByte()` takes the next byte of what is left
+	sendTypes map[string]string // list field of `sends` -> Lean type of what is sent (default GoString)
+	chanTypes map[string]string // "recv" / "send" / "both" -> Lean type of a channel of that direction (default Unit)
+	queues   []string           // source texts of buffered channels the code uses as bounded queues (`GoQueue`)
+	constPtr []string           // pointer parameters that are only read: passed by value
 }
 
 type trEffect struct {
@@ -142,6 +146,17 @@ var trUnits = []trUnit{
 		bufVars:  []string{"message"},
 		readers:  []string{"reader"},
 		funcs:    []string{"readFile.handleReadError", "readFile.handleReadByte", "readFile.read"}},
+	{ns: "Grep", pkgDir: "internal/io/fs", panics: true, matchExt: "reMatch",
+		structs:   map[string][]string{"readFile": {"globID"}, "ltxState": nil},
+		enums:     []string{"readStatus"},
+		skip:      []string{"f.updatePosition", "f.updateLineNotMatched", "f.updateLineMatched"},
+		callExt:   map[string]string{"f.totalLineCount": "lineCount"},
+		sends:     map[string]string{"lines": "lines"}, sendOwner: "readFile", sendTypes: map[string]string{"lines": "GoLine"},
+		chanTypes: map[string]string{"recv": "(List GoString)", "both": "GoQueue", "send": "Unit"},
+		queues:    []string{"ls.beforeBuf"},
+		constPtr:  []string{"ltx", "re"},
+		funcs: []string{"readFile.lContextProcessMaxCount", "readFile.lContextProcessBefore", "readFile.lContextNotMatched",
+			"readFile.filterLineWithLContext", "readFile.filterWithLContext"}},
 	{ns: "Brush", pkgDir: "internal/color/brush", panics: true,
 		structs:     map[string][]string{},
 		appendCalls: map[string]int{"color.PaintWithAttr": 1},
@@ -335,6 +350,15 @@ func (p *trPkg) leanType(e ast.Expr) string {
 	case *ast.MapType:
 		return "(GoMap " + p.leanType(t.Key) + " " + p.leanType(t.Value) + ")"
 	case *ast.ChanType:
+		dir := "both"
+		if t.Dir == ast.RECV {
+			dir = "recv"
+		} else if t.Dir == ast.SEND {
+			dir = "send"
+		}
+		if lt, ok := p.unit.chanTypes[dir]; ok {
+			return lt
+		}
 		return "Unit" // what is sent on a channel is kept in the receiver (unit option `sends`)
 	case *ast.StructType:
 		if t.Fields == nil || len(t.Fields.List) == 0 {
@@ -416,7 +440,11 @@ func (p *trPkg) emitStruct(sb *strings.Builder, name string) {
 		}
 		sort.Strings(chans)
 		for _, fld := range chans {
-			fmt.Fprintf(sb, "  %s : List GoString := []\n", fld)
+			ty := "GoString"
+			if t, ok := p.unit.sendTypes[fld]; ok {
+				ty = t
+			}
+			fmt.Fprintf(sb, "  %s : List %s := []\n", fld, ty)
 		}
 	}
 	fmt.Fprintf(sb, "  deriving Repr, DecidableEq\n\n")
@@ -513,6 +541,7 @@ type trFn struct {
 	inGuardedSwitch bool
 	resTypes  []ast.Expr        // declared result types
 	mapVars   map[string]bool   // parameters and locals of map type
+	chanVars  map[string]bool   // parameters of channel type (ranging over one yields its elements, not indices)
 	okValue   string            // the variable a matched call result is bound to (callStmt -> callBind)
 }
 
@@ -853,6 +882,15 @@ func (f *trFn) stmt1(ind string, s ast.Stmt, next cont) string {
 		if isLogging(call) || contains(f.p.unit.skip, src(call.Fun)) {
 			return next(ind)
 		}
+		if strings.HasPrefix(src(call.Fun), "pool.Recycle") && len(call.Args) == 1 {
+			if qx := f.queueRecv(call.Args[0]); qx != nil {
+				// the oldest element is taken out and given back to the pool; a receive from an empty queue blocks for ever
+				out := fmt.Sprintf("%sif (GoQueue.nonEmpty %s) then\n", ind, f.expr(qx))
+				out += f.queuePop(ind+"  ", qx, next)
+				out += ind + "else\n" + f.panicLine(ind+"  ", "blocks for ever")
+				return out
+			}
+		}
 		if c, ef := f.effectOf(call); ef != nil {
 			return f.effectBind(ind, c, ef, nil, false, next)
 		}
@@ -958,6 +996,13 @@ func (f *trFn) sendStmt(ind string, st *ast.SendStmt, next cont) string {
 	if contains(f.p.unit.skip, ch) {
 		return next(ind)
 	}
+	if f.isQueue(st.Chan) {
+		// a send on a full queue nobody else reads blocks for ever
+		out := fmt.Sprintf("%sif (GoQueue.hasRoom %s) then\n", ind, f.expr(st.Chan))
+		out += f.queuePush(ind+"  ", st.Chan, f.expr(st.Value), next)
+		out += ind + "else\n" + f.panicLine(ind+"  ", "blocks for ever")
+		return out
+	}
 	fld, ok := f.p.unit.sends[ch]
 	if !ok || f.recv == "" || f.vtypes[f.recv] != f.p.unit.sendOwner {
 		trFail(st, "send on %s is not in the translated subset", ch)
@@ -966,10 +1011,93 @@ func (f *trFn) sendStmt(ind string, st *ast.SendStmt, next cont) string {
 	return fmt.Sprintf("%slet %s := { %s with %s := %s.%s ++ [%s] }\n", ind, g, g, fld, g, fld, f.expr(st.Value)) + next(ind)
 }
 
+// isQueue: the expression is one of the unit's buffered channels used as bounded queues
+func (f *trFn) isQueue(e ast.Expr) bool {
+	return e != nil && contains(f.p.unit.queues, src(e))
+}
+
+// queueRecv: `<-q` on a queue
+func (f *trFn) queueRecv(e ast.Expr) ast.Expr {
+	if u, ok := e.(*ast.UnaryExpr); ok && u.Op == token.ARROW && f.isQueue(u.X) {
+		return u.X
+	}
+	return nil
+}
+
+// queuePush / queuePop: the queue after a send / a receive (the caller has checked that neither blocks)
+func (f *trFn) queuePush(ind string, q ast.Expr, val string, k cont) string {
+	return f.assignTo(ind, q, fmt.Sprintf("(GoQueue.push %s %s)", f.expr(q), val), k)
+}
+
+func (f *trFn) queuePop(ind string, q ast.Expr, k cont) string {
+	return f.assignTo(ind, q, fmt.Sprintf("(GoQueue.pop %s)", f.expr(q)), k)
+}
+
+// selectQueue: `select { case q <- v: A; default: B }` and `select { case x := <-q: A; default: B }` on a queue of the
+// function's own: which clause runs is decided by the queue's state
+func (f *trFn) selectQueue(ind string, st *ast.SelectStmt, next cont) (string, bool) {
+	if len(st.Body.List) != 2 {
+		return "", false
+	}
+	var def, op *ast.CommClause
+	for _, c := range st.Body.List {
+		cc := c.(*ast.CommClause)
+		if cc.Comm == nil {
+			def = cc
+		} else {
+			op = cc
+		}
+	}
+	if def == nil || op == nil {
+		return "", false
+	}
+	branch := func(ind string, body []ast.Stmt, pre func(ind string, k cont) string) string {
+		f.push()
+		defer f.pop()
+		return pre(ind, func(ind string) string {
+			return f.stmts(ind, body, func(ind string) string { return f.outside(1, func() string { return next(ind) }) })
+		})
+	}
+	plain := func(ind string, k cont) string { return k(ind) }
+	switch comm := op.Comm.(type) {
+	case *ast.SendStmt:
+		if !f.isQueue(comm.Chan) {
+			return "", false
+		}
+		q := f.expr(comm.Chan)
+		out := fmt.Sprintf("%sif (GoQueue.hasRoom %s) then\n", ind, q)
+		out += branch(ind+"  ", op.Body, func(ind string, k cont) string { return f.queuePush(ind, comm.Chan, f.expr(comm.Value), k) })
+		out += ind + "else\n"
+		out += branch(ind+"  ", def.Body, plain)
+		return out, true
+	case *ast.AssignStmt:
+		if len(comm.Lhs) != 1 || len(comm.Rhs) != 1 || comm.Tok != token.DEFINE {
+			return "", false
+		}
+		qx := f.queueRecv(comm.Rhs[0])
+		if qx == nil {
+			return "", false
+		}
+		q := f.expr(qx)
+		out := fmt.Sprintf("%sif (GoQueue.nonEmpty %s) then\n", ind, q)
+		out += branch(ind+"  ", op.Body, func(ind string, k cont) string {
+			head := fmt.Sprintf("(GoQueue.head %s)", f.expr(qx))
+			return f.oneAssign(ind, comm.Lhs[0], true, head, func(ind string) string { return f.queuePop(ind, qx, k) })
+		})
+		out += ind + "else\n"
+		out += branch(ind+"  ", def.Body, plain)
+		return out, true
+	}
+	return "", false
+}
+
 // selectStmt: the translation fixes the environment a theorem speaks about — the context is never cancelled, no timer or
 // signal channel is ready, and the consumer of a channel takes what is sent: a select with a `default` clause takes it; one
 // without takes its only send clause.  Anything else is outside the subset.
 func (f *trFn) selectStmt(ind string, st *ast.SelectStmt, next cont) string {
+	if out, ok := f.selectQueue(ind, st, next); ok {
+		return out
+	}
 	var def, send *ast.CommClause
 	sends := 0
 	for _, c := range st.Body.List {
@@ -1492,6 +1620,11 @@ func (f *trFn) callText(call *ast.CallExpr) string {
 	if f.isTranslatedMethodCall(call) {
 		sel := call.Fun.(*ast.SelectorExpr)
 		sig := f.p.methodSig(sel.Sel.Name)
+		if sig.ptrParam != "" {
+			if x := ptrTarget(call.Args[sig.ptrIdx]); x != nil {
+				args[sig.ptrIdx] = f.expr(x)
+			}
+		}
 		path, _ := f.recvPath(call, sel.X.(*ast.Ident).Name, sig)
 		return strings.TrimSpace(fmt.Sprintf("%s ext %s %s", f.p.methodKey(sel.Sel.Name), path, strings.Join(args, " ")))
 	}
@@ -1518,6 +1651,17 @@ func (f *trFn) callBind(ind string, lhs []ast.Expr, define bool, call *ast.CallE
 		for _, a := range call.Args {
 			args = append(args, f.expr(a))
 		}
+		var ptrX ast.Expr // the variable a pointer parameter of the method points to: it gets the updated value back
+		if sig.ptrParam != "" {
+			ptrX = ptrTarget(call.Args[sig.ptrIdx])
+			if ptrX == nil {
+				trFail(call, "call of %s: the pointer argument must be &variable or a pointer variable", sel.Sel.Name)
+			}
+			args[sig.ptrIdx] = f.expr(ptrX)
+			if !sig.ptrRecv {
+				trFail(call, "method %s with a pointer parameter and a value receiver", sel.Sel.Name)
+			}
+		}
 		path, emb := f.recvPath(call, base.Name, sig)
 		rhs := fmt.Sprintf("%s ext %s %s", f.p.methodKey(sel.Sel.Name), path, strings.Join(args, " "))
 		if okv != "" {
@@ -1540,7 +1684,7 @@ func (f *trFn) callBind(ind string, lhs []ast.Expr, define bool, call *ast.CallE
 			define = true
 		}
 		if sig.ptrRecv {
-			if len(targets) == 0 {
+			if len(targets) == 0 && ptrX == nil {
 				return setRecv(ind, "("+strings.TrimSpace(rhs)+")") + k(ind)
 			}
 			f.counter++
@@ -1550,8 +1694,19 @@ func (f *trFn) callBind(ind string, lhs []ast.Expr, define bool, call *ast.CallE
 				f.counter++
 				tmps = append(tmps, fmt.Sprintf("_t%d", f.counter))
 			}
-			out := fmt.Sprintf("%slet (%s, %s) := %s\n", ind, tr, strings.Join(tmps, ", "), strings.TrimSpace(rhs))
+			pat := []string{tr}
+			tp := ""
+			if ptrX != nil {
+				f.counter++
+				tp = fmt.Sprintf("_p%d", f.counter)
+				pat = append(pat, tp)
+			}
+			pat = append(pat, tmps...)
+			out := fmt.Sprintf("%slet (%s) := %s\n", ind, strings.Join(pat, ", "), strings.TrimSpace(rhs))
 			out += setRecv(ind, tr)
+			if ptrX != nil {
+				out += f.assignTo(ind, ptrX, tp, func(string) string { return "" })
+			}
 			var chain func(i int) cont
 			chain = func(i int) cont {
 				if i == len(targets) {
@@ -1801,6 +1956,13 @@ func (f *trFn) assignedOuter(body []ast.Stmt) []string {
 			if _, ok := f.p.unit.sends[src(s.Chan)]; ok && f.recv != "" {
 				set[f.recv] = true // what was sent is kept in the receiver
 			}
+			if f.isQueue(s.Chan) {
+				mark(s.Chan)
+			}
+		case *ast.UnaryExpr:
+			if qx := f.queueRecv(s); qx != nil {
+				mark(qx)
+			}
 		case *ast.CallExpr:
 			if _, ef := f.effectOf(s); ef != nil && f.recv != "" {
 				set[f.recv] = true // the history of operations lives in the receiver
@@ -1837,6 +1999,10 @@ func (f *trFn) assignedOuter(body []ast.Stmt) []string {
 }
 
 func (f *trFn) rangeStmt(ind string, st *ast.RangeStmt, k cont) string {
+	if id, ok := st.X.(*ast.Ident); ok && f.chanVars[id.Name] && st.Value == nil && st.Key != nil {
+		// `for x := range ch`: the elements of the channel (translated as the list of what arrives on it)
+		st = &ast.RangeStmt{For: st.For, Key: ast.NewIdent("_"), Value: st.Key, Tok: st.Tok, X: st.X, Body: st.Body}
+	}
 	keyName := ""
 	if st.Key != nil {
 		id, ok := st.Key.(*ast.Ident)
@@ -2292,6 +2458,10 @@ func (f *trFn) expr(e ast.Expr) string {
 				if t.Len == nil && len(v.Args) == 2 {
 					return fmt.Sprintf("(List.replicate (Int.toNat %s) %s)", f.expr(v.Args[1]), f.p.leanZero(t.Elt))
 				}
+			case *ast.ChanType:
+				if len(v.Args) == 2 && f.p.unit.chanTypes["both"] == "GoQueue" {
+					return fmt.Sprintf("(GoQueue.mk %s [])", f.expr(v.Args[1]))
+				}
 			}
 			trFail(v, "make(%s, …) is not in the translated subset", src(v.Args[0]))
 		case "rand.New":
@@ -2504,10 +2674,14 @@ func (p *trPkg) emitFunc(sb *strings.Builder, key string) {
 		f.vtypes[f.recv] = sig.recv
 	}
 	f.mapVars = p.mapVarsOf(ftype, body)
+	f.chanVars = map[string]bool{}
 	for _, fl := range ftype.Params.List {
 		for _, n := range fl.Names {
 			params += fmt.Sprintf(" (%s : %s)", f.declare(n.Name), p.leanType(fl.Type))
 			f.vtypes[n.Name] = recvTypeName(fl.Type)
+			if _, isChan := fl.Type.(*ast.ChanType); isChan {
+				f.chanVars[n.Name] = true
+			}
 		}
 	}
 	var rtypes []string
@@ -2688,6 +2862,14 @@ func (p *trPkg) computeCanPanic() {
 				}
 			case *ast.SliceExpr:
 				found = true
+			case *ast.SendStmt:
+				if contains(p.unit.queues, src(v.Chan)) {
+					found = true // may block for ever
+				}
+			case *ast.UnaryExpr:
+				if v.Op == token.ARROW && contains(p.unit.queues, src(v.X)) {
+					found = true
+				}
 			case *ast.SelectorExpr:
 				if p.optDeref(v.X) {
 					found = true
@@ -2866,10 +3048,10 @@ func translateUnit(u trUnit) (out string) {
 					s.nResults += len(fl.Names)
 				}
 			}
-			if d.Recv == nil {
+			if d.Recv == nil || len(u.constPtr) > 0 {
 				idx := 0
 				for _, fl := range d.Type.Params.List {
-					if st, ok := fl.Type.(*ast.StarExpr); ok && len(fl.Names) == 1 && s.ptrParam == "" {
+					if st, ok := fl.Type.(*ast.StarExpr); ok && len(fl.Names) == 1 && s.ptrParam == "" && !contains(u.constPtr, fl.Names[0].Name) {
 						name := ""
 						if id, ok := st.X.(*ast.Ident); ok && !contains(u.optPtr, id.Name) {
 							if _, isStruct := u.structs[id.Name]; isStruct {
